@@ -9,6 +9,13 @@ mismatch, exponent waived, domain, duplicate bundle ids, slot counts, distinct-k
 (quick: all-on / own-flag-only / all-but-own / random; thorough: every subset).  The timing rules (C05) and signature
 validation (C07) are switched off.
 
+Key-tag BOUNDARY keys (`TAG_CLASSES`, in every run): base requests whose ZSKs (flags 256; RSA 1024..4096 under algorithms 8
+and 10, ECDSA P-256 / P-384, Ed25519) have an RFC 4034 App. B accumulator on a boundary of the folding step — the fold itself
+carries (`(ac & 0xFFFF) + (ac >> 16) >= 0x10000`: the RFC adds the high half ONCE and discards that carry), tag exactly 0,
+tag exactly 65535, low half exactly 0 — obtained by solving one 16-bit word of random public material (public material only:
+signature validation is off).  They go through the same corruptions as every other base: the correctly stated tag must be
+accepted, tag +-1 / +256 refused.  The steered tags are cross-checked against dnspython's `key_id`.
+
 Three verdicts per (request, policy), for `validate_request` and for each of the five rule functions:
   * /repo (imported from the working tree),
   * the model driver (`c06_all`: same JSON, set iteration order preserved),
@@ -281,10 +288,41 @@ def declared_for(alg: int, blob: bytes) -> dict[str, Any]:
     return {"kind": "eddsa", "alg": alg, "bits": DOC_EDDSA[alg], "exp": None}
 
 
+# boundaries of the RFC 4034 Appendix B folding step, as predicates on the accumulator `ac` (before folding)
+TAG_CLASSES = {
+    "carry2": lambda ac: (ac & 0xFFFF) + (ac >> 16) >= 0x10000,  # the fold itself carries; the RFC discards that carry
+    "tag0": lambda ac: (ac & 0xFFFF) + (ac >> 16) == 0x10000,  # ... and the tag is exactly 0 (tag - 1 wraps to 65535)
+    "tagmax": lambda ac: (ac & 0xFFFF) + (ac >> 16) == 0xFFFF,  # tag exactly 65535, no carry (tag + 1 wraps to 0)
+    "low0": lambda ac: ac & 0xFFFF == 0,  # the tag is the high half alone
+}
+
+
+def steer_blob(r: Any, alg: int, blob: bytes, tagclass: str, flags: int = 256, protocol: int = 3) -> bytes:
+    """The same public-key field with ONE aligned 16-bit word (the last but one of the RDATA: neither the RFC 3110 header nor the
+    modulus' top / bottom octet) solved so that the accumulator of the DNSKEY RDATA (flags, protocol, alg) meets the class."""
+    pred = TAG_CLASSES[tagclass]
+    rd = bytearray(bytes([flags >> 8, flags & 0xFF, protocol, alg]) + blob)
+    o = (len(rd) - 4) & ~1
+    assert o >= 8, "key too short to steer"
+    rd[o] = rd[o + 1] = 0
+    s0 = 0
+    for i, b in enumerate(rd):
+        s0 += b if (i & 1) else (b << 8)
+    good = [w for w in range(65536) if pred(s0 + w)]
+    if not good:
+        raise RuntimeError(f"no 16-bit word meets tag class {tagclass}")
+    w = r.choice(good)
+    rd[o], rd[o + 1] = w >> 8, w & 0xFF
+    return bytes(rd[4:])
+
+
 def key_pool(r: Any, family: str, n: int, fixture_ratio: float = 0.3) -> list[tuple[int, bytes]]:
-    """n distinct (algorithm, public key blob) of one family profile"""
+    """n distinct (algorithm, public key blob) of one family profile; `family@class`: every key steered onto a key-tag boundary"""
     import keys as fx
 
+    family, _, tagclass = family.partition("@")
+    if tagclass:
+        return [(alg, steer_blob(r, alg, blob, tagclass)) for alg, blob in key_pool(r, family, n, fixture_ratio)]
     out: list[tuple[int, bytes]] = []
     if family.startswith("rsa"):
         _, bits_s, e_s, alg_s = family.split(":")
@@ -651,12 +689,28 @@ FAMILIES_QUICK = [
     ("eddsa:15", [2]), ("eddsa:16", [1]),
     ("mixed", [2, 4]),
 ]
+# key-tag boundary keys (every run): (family@class, bundle counts)
+FAMILIES_TAG_BOUNDARY = [
+    ("rsa:1024:65537:8@carry2", [2]), ("rsa:2048:65537:8@carry2", [1, 9]), ("rsa:2048:3:10@carry2", [2]), ("rsa:1024:65537:10@carry2", [1]),
+    ("rsa:4096:65537:10@carry2", [1]), ("rsa:3072:4294967297:8@carry2", [1]),
+    ("ecdsa:13:n@carry2", [2]), ("ecdsa:14:n@carry2", [1]), ("ecdsa:13:p@carry2", [1]), ("eddsa:15@carry2", [1]), ("mixed@carry2", [2]),
+    ("rsa:2048:65537:8@tag0", [1]), ("ecdsa:13:n@tag0", [1]), ("rsa:1024:65537:10@tagmax", [2]), ("ecdsa:14:n@tagmax", [1]), ("rsa:2048:65537:8@low0", [1]),
+]
 
 
 def families(tier: str) -> list[tuple[str, list[int]]]:
     if tier == "quick":
-        return FAMILIES_QUICK
-    out = []
+        return FAMILIES_QUICK + FAMILIES_TAG_BOUNDARY
+    out = list(FAMILIES_TAG_BOUNDARY)
+    for bits in (1024, 2048, 3072, 4096):
+        for alg in (8, 10):
+            for cls in TAG_CLASSES:
+                if not any(name == f"rsa:{bits}:65537:{alg}@{cls}" for name, _ in out):
+                    out.append((f"rsa:{bits}:65537:{alg}@{cls}", [2] if cls == "carry2" else [1]))
+    for fam in ("ecdsa:13:n", "ecdsa:14:n", "eddsa:15", "eddsa:16"):
+        for cls in TAG_CLASSES:
+            if not any(name == f"{fam}@{cls}" for name, _ in out):
+                out.append((f"{fam}@{cls}", [1]))
     for bits in (1024, 2048, 3072, 4096):
         for e in (3, 65537, 2**32 + 1):
             for alg in (8, 10):
@@ -733,7 +787,9 @@ def run(tier: str, driver_ok: bool) -> Result:
     res = Result("C06")
     res.rule = (
         "base requests over RSA 1024/2048/3072/4096 x exponents 3/65537/2^32+1 x algorithms 8/10(/5), ECDSA P-256/P-384 with and "
-        "without the SEC 1 octet, EdDSA, mixed families; 1/2/3/4/9 bundles; every single-field corruption of the property text at "
+        "without the SEC 1 octet, EdDSA, mixed families; the same families with every ZSK steered onto a boundary of the RFC 4034 "
+        "key-tag fold (fold carries a second time / tag 0 / tag 65535 / low half 0; RSA 1024..4096 alg 8 and 10, P-256, P-384, Ed25519; "
+        "stated tag cross-checked with dnspython); 1/2/3/4/9 bundles; every single-field corruption of the property text at "
         "first/second/middle/last key positions (thorough: all); every algorithm number 1..16 under every policy subclass; flag sets "
         "= as-configured / own-flag-only / all-but-own / random (thorough: additionally all 64 subsets of the six switches for every request of <= 2 bundles); each (request, policy) "
         "is judged by validate_request and by each of the five rule functions; non-trivial = distinct (request, policy) input"
@@ -767,6 +823,8 @@ def run(tier: str, driver_ok: bool) -> Result:
             todo: list[tuple[str, dict[str, Any], dict[str, Any], dict[str, Any], dict[str, bool], bool]] = []
             lines: list[dict[str, Any]] = []
             case0, pol0 = base_case(r, family, nb)
+            if "@" in family:
+                check_boundary_keys(res, family, case0)
             for tag, own, case, pol in corruptions(r, case0, pol0, family, tier):
                 case = as_sets(case)
                 full = tier == "thorough" and len(case["bundles"]) <= 2 and (not tag.startswith("declared-extra") or tag.endswith("as-configured"))
@@ -788,13 +846,35 @@ def run(tier: str, driver_ok: bool) -> Result:
     return res
 
 
+def check_boundary_keys(res: Result, family: str, case0: dict[str, Any]) -> None:
+    """self-check of the generator: every key of a `family@class` base is on the boundary it was steered to, and the tag the
+    base states for it (region's RFC transcription) is also what dnspython computes"""
+    import dns.dnssec
+    import dns.rdataclass
+    import dns.rdatatype
+    from dns.rdtypes.ANY.DNSKEY import DNSKEY
+
+    cls = family.split("@")[1]
+    for k in {k["pk"]: k for b in case0["bundles"] for k in b["keys"]}.values():
+        blob = base64.b64decode(k["pk"])
+        rd = bytes([k["flags"] >> 8, k["flags"] & 0xFF, k["protocol"], k["alg"]]) + blob
+        ac = sum(b if (i & 1) else (b << 8) for i, b in enumerate(rd))
+        theirs = dns.dnssec.key_id(DNSKEY(dns.rdataclass.IN, dns.rdatatype.DNSKEY, k["flags"], k["protocol"], k["alg"], blob))
+        res.bump(f"tag-boundary:{cls}:{'alg' + str(k['alg'])}")
+        if not TAG_CLASSES[cls](ac) or theirs != k["tag"]:
+            res.violation("harness inconsistency: steered key is not on its key-tag boundary, or dnspython computes another tag (generator or oracle wrong)",
+                          {"family": family, "key": k}, key="oracle:tag-boundary", on_boundary=TAG_CLASSES[cls](ac), dnspython=theirs, stated=k["tag"])
+
+
 def evaluate(res: Result, todo: list[Any], model: list[Any]) -> None:
     for (tag, case, p, impl, reg, wf), m in zip(todo, model):
         res.count({"case": case, "policy": p})
         res.evaluations += len(CHECKS)  # the composite and each rule function are judged separately
         rule = tag.split("|")[0].split(":")[0]
         res.bump("corruption:" + rule)
-        res.bump("family:" + tag.split("|")[1].split(":")[0])
+        res.bump("family:" + tag.split("|")[1].split(":")[0].split("@")[0])
+        if "@" in tag.split("|")[1]:
+            res.bump("key-tag-boundary:" + tag.split("|")[1].split("@")[1])
         res.bump("bundles:" + tag.split("|")[2])
         res.bump("impl:" + ("accept" if "ok" in impl["validate_request"] else next(iter(impl["validate_request"].values()))))
         res.bump("flags-on:" + str(sum(1 for f in CHECK_FLAGS if p[f])))
